@@ -252,36 +252,132 @@ theorem divided_outer_step (i io ii : Sym) (B : List Stmt) (par : Bool) (q : Nat
     simp only [Except.map]
     rw [leave_bind_of_scope s s1 io vo sc.2.1 sc.2.2 sc.1]
 
-/-- `divide_loop(..., perfect=True)`:  `for i in [0, hi): B`  =
-    `for io in [0, hi / q): for ii in [0, q): B[i ↦ q * io + ii]`  when `hi = q * m` in the
-    current state, `io`, `ii` are distinct fresh names not occurring in `B`, and no loop inside
-    `B` re-binds them -/
-theorem divide_loop_perfect (i io ii : Sym) (hi : Expr) (B : List Stmt) (par : Bool) (q m : Nat)
-    (hq : 0 < q) (σ : State V) (hh : evalC σ hi = .ok ((q : Int) * m))
+/-- the main nest built by `divide_loop` runs the first `q * m` iterations of the original loop,
+    where `m` is the value of the new outer bound -/
+theorem divided_main (i io ii : Sym) (ohi : Expr) (B : List Stmt) (par : Bool) (q m : Nat)
+    (σ : State V) (hm : evalC σ ohi = .ok (m : Int))
     (hio : occL io B = false) (hii : occL ii B = false) (hne : io ≠ ii)
     (hlv : ∀ k ∈ loopVarsL B, k ≠ io ∧ k ≠ ii) :
-    execS ext (.loop io (.lit (.int 0)) (.binop .div hi (.lit (.int q)))
+    execS ext (.loop io (.lit (.int 0)) ohi
         [.loop ii (.lit (.int 0)) (.lit (.int q))
           (substL i (.binop .add (.binop .mul (.lit (.int q)) (.read io [])) (.read ii [])) B) par] par) σ
-      = execS ext (.loop i (.lit (.int 0)) hi B par) σ := by
-  have hdiv : evalC σ (.binop .div hi (.lit (.int q))) = .ok (m : Int) := by
-    rw [evalC, hh]
-    have hq' : ¬ ((q : Int) ≤ 0) := by omega
-    simp only [evalC, bind, Except.bind, ctrlOp, hq', if_false, pure, Except.pure]
-    congr 1
-    rw [Int.mul_comm]
-    exact Int.mul_ediv_cancel _ (by omega)
-  rw [execS_loop ext io _ _ _ par σ 0 m rfl hdiv (by omega),
-      execS_loop ext i _ hi B par σ 0 ((q : Int) * m) rfl hh (Int.mul_nonneg (by omega) (by omega))]
+      = iterate (loopStep ext i B) (q * m) 0 σ := by
+  rw [execS_loop ext io _ _ _ par σ 0 m rfl hm (by omega)]
   simp only [Int.sub_zero, Int.toNat_natCast]
-  have hcnt : ((q : Int) * (m : Int)).toNat = q * m := by
-    rw [← Int.natCast_mul]; exact Int.toNat_natCast _
-  rw [hcnt, ← iterate_mul (loopStep ext i B) q m 0 σ]
+  rw [← iterate_mul (loopStep ext i B) q m 0 σ]
   congr 1
   funext vo s
   rw [divided_outer_step ext i io ii B par q vo s hio hii hne hlv]
   congr 1
   omega
+
+/-- `divide_loop(..., perfect=True)`:  `for i in [0, hi): B`  =
+    `for io in [0, ohi): for ii in [0, q): B[i ↦ q * io + ii]`  when `hi = q * m` and the new
+    outer bound `ohi` (whatever expression the primitive builds for `hi / q`) has value `m` in the
+    current state, `io`, `ii` are distinct fresh names not occurring in `B`, and no loop inside
+    `B` re-binds them -/
+theorem divide_loop_perfect (i io ii : Sym) (hi ohi : Expr) (B : List Stmt) (par : Bool) (q m : Nat)
+    (σ : State V) (hh : evalC σ hi = .ok ((q : Int) * m)) (hm : evalC σ ohi = .ok (m : Int))
+    (hio : occL io B = false) (hii : occL ii B = false) (hne : io ≠ ii)
+    (hlv : ∀ k ∈ loopVarsL B, k ≠ io ∧ k ≠ ii) :
+    execS ext (.loop io (.lit (.int 0)) ohi
+        [.loop ii (.lit (.int 0)) (.lit (.int q))
+          (substL i (.binop .add (.binop .mul (.lit (.int q)) (.read io [])) (.read ii [])) B) par] par) σ
+      = execS ext (.loop i (.lit (.int 0)) hi B par) σ := by
+  rw [divided_main ext i io ii ohi B par q m σ hm hio hii hne hlv,
+      execS_loop ext i _ hi B par σ 0 ((q : Int) * m) rfl hh (Int.mul_nonneg (by omega) (by omega))]
+  simp only [Int.sub_zero]
+  have hcnt : ((q : Int) * (m : Int)).toNat = q * m := by
+    rw [← Int.natCast_mul]; exact Int.toNat_natCast _
+  rw [hcnt]
+
+/-- `divide_loop(..., tail="cut")`: the main nest over `hi / q` blocks followed by the tail loop
+    `for i3 in [0, hi % q): B[i ↦ i3 + (hi / q) * q]` equals the original loop, for every
+    non-negative value of `hi`, when `hi` depends on the control environment only -/
+theorem divide_loop_cut (i io ii i3 : Sym) (hi : Expr) (B : List Stmt) (par : Bool) (q : Nat)
+    (hq : 0 < q) (σ : State V) (N : Int) (hN : 0 ≤ N) (hh : evalC σ hi = .ok N)
+    (ehi : hi.envOnly = true) (hi3 : hi.occC i3 = false)
+    (hio : occL io B = false) (hii : occL ii B = false) (hne : io ≠ ii) (h3 : occL i3 B = false)
+    (hlv : ∀ k ∈ loopVarsL B, k ≠ io ∧ k ≠ ii ∧ k ≠ i3 ∧ hi.occC k = false) :
+    execL ext [.loop io (.lit (.int 0)) (.binop .div hi (.lit (.int q)))
+        [.loop ii (.lit (.int 0)) (.lit (.int q))
+          (substL i (.binop .add (.binop .mul (.lit (.int q)) (.read io [])) (.read ii [])) B) par] par,
+      .loop i3 (.lit (.int 0)) (.binop .mod hi (.lit (.int q)))
+        (substL i (.binop .add (.read i3 []) (.binop .mul (.binop .div hi (.lit (.int q))) (.lit (.int q)))) B) par] σ
+      = execS ext (.loop i (.lit (.int 0)) hi B par) σ := by
+  have hq' : ¬ ((q : Int) ≤ 0) := by omega
+  obtain ⟨m, hm⟩ : ∃ m : Nat, N / (q : Int) = m :=
+    ⟨(N / (q : Int)).toNat, by
+      have : 0 ≤ N / (q : Int) := Int.ediv_nonneg hN (by omega)
+      omega⟩
+  obtain ⟨t, ht⟩ : ∃ t : Nat, N % (q : Int) = t :=
+    ⟨(N % (q : Int)).toNat, by
+      have : 0 ≤ N % (q : Int) := Int.emod_nonneg _ (by omega)
+      omega⟩
+  have hNsplit : N = (q : Int) * m + t := by
+    have := Int.mul_ediv_add_emod N (q : Int)
+    rw [hm, ht] at this; omega
+  have evdiv : ∀ s : State V, evalC s hi = .ok N → evalC s (.binop .div hi (.lit (.int q))) = .ok (m : Int) := by
+    intro s hs
+    rw [evalC, hs]
+    simp only [evalC, bind, Except.bind, ctrlOp, hq', if_false, pure, Except.pure, hm]
+  have evmod : ∀ s : State V, evalC s hi = .ok N → evalC s (.binop .mod hi (.lit (.int q))) = .ok (t : Int) := by
+    intro s hs
+    rw [evalC, hs]
+    simp only [evalC, bind, Except.bind, ctrlOp, hq', if_false, pure, Except.pure, ht]
+  -- right-hand side
+  rw [execS_loop ext i _ hi B par σ 0 N rfl hh hN]
+  have hcnt : (N - 0).toNat = q * m + t := by
+    rw [Int.sub_zero, hNsplit]
+    have : ((q : Int) * (m : Int) + (t : Int)) = ((q * m + t : Nat) : Int) := by
+      simp [Int.natCast_add, Int.natCast_mul]
+    rw [this]; exact Int.toNat_natCast _
+  rw [hcnt, iterate_add]
+  -- left-hand side
+  simp only [execL, bind, Except.bind]
+  rw [divided_main ext i io ii _ B par q m σ (evdiv σ hh) hio hii hne
+        (fun k hk => ⟨(hlv k hk).1, (hlv k hk).2.1⟩)]
+  cases h1 : iterate (loopStep ext i B) (q * m) 0 σ with
+  | error e => rfl
+  | ok σ1 =>
+    have sc := iterate_scope _ (loopStep_scope ext i B) _ _ _ _ h1
+    have hh1 : evalC σ1 hi = .ok N := by
+      rw [evalC_envOnly hi ehi σ σ1 (fun y _ => by rw [sc.1])]; exact hh
+    simp only []
+    rw [execS_loop ext i3 _ _ _ par σ1 0 t rfl (evmod σ1 hh1) (by omega)]
+    simp only [Int.sub_zero, Int.toNat_natCast]
+    have key := iterate_eq_of_inv (fun s : State V => s.env = σ1.env)
+      (loopStep ext i3 (substL i (.binop .add (.read i3 []) (.binop .mul (.binop .div hi (.lit (.int q))) (.lit (.int q)))) B))
+      (loopStep ext i B) ((q : Int) * m)
+      (fun v s s' hs hstep => (loopStep_scope ext i B v s s' hstep).2.1.trans hs)
+      (fun v s hs => by
+        apply loopStep_subst_gen ext i3 i _ B v (v + (q : Int) * m) s
+        · simp [Expr.envOnly, ehi]
+        · have e0 : evalC (s.bind i3 v) hi = .ok N := by
+            rw [evalC_envOnly hi ehi σ1 (s.bind i3 v) (fun y hy => by
+              have : y ≠ i3 := by intro e; subst e; rw [hi3] at hy; cases hy
+              simp [State.bind, lookupSym_cons, this, hs])]
+            exact hh1
+          have e1 : evalC (s.bind i3 v) (.read i3 []) = .ok v := by
+            simp [evalC, State.bind, lookupSym]; rfl
+          have e2 : evalC (s.bind i3 v) (.binop .mul (.binop .div hi (.lit (.int q))) (.lit (.int q)))
+              = .ok ((m : Int) * q) := by
+            rw [evalC, evdiv _ e0]; rfl
+          rw [evalC, e1, e2]
+          simp only [bind, Except.bind, ctrlOp, pure, Except.pure]
+          congr 1
+          rw [Int.mul_comm]
+        · intro k hk
+          have := hlv k hk
+          simp [Expr.occC, this.2.2.2]
+          exact fun e => this.2.2.1 e.symm
+        · exact Or.inl h3)
+      t 0 σ1 rfl
+    rw [key]
+    have e0 : (0 : Int) + (q : Int) * m = (0 : Int) + ((q * m : Nat) : Int) := by
+      simp [Int.natCast_mul]
+    rw [e0]
+    cases iterate (loopStep ext i B) t (0 + ((q * m : Nat) : Int)) σ1 <;> rfl
 
 /-! ### unroll_loop -/
 
